@@ -191,6 +191,7 @@ class Program:
         t = time.time()
         self.fns, self.allocs, self.text = mp.load(mir_path)
         self.src = SrcInfo(src_root)
+        self.src_root = src_root
         self.by_inherent = {}   # (Type, method) -> [Fn]
         self.by_trait = {}      # (Trait, Type, method) -> [Fn]
         self.free = {}          # last segment -> [Fn]
